@@ -373,6 +373,10 @@ static void check_section_step(cfg_t *ctx, int accepted)
 {
 	unsigned i;
 	int dup = -1;
+
+#if defined(CHK_C02) && LEVEL >= 100000
+	V_ASSERT(n_lex_nested == 0, "[C02] nesting is bounded: at depth 100000 the parser does not recurse into yet another section (stack)");
+#endif
 	int nocase = (ctx->flags & CFGF_NOCASE) != 0;
 
 	if (O->flags & CFGF_TITLE)
@@ -548,6 +552,9 @@ static void check_skipper(cfg_t *ctx, int act_kind, int act_state, struct pstate
 	else
 		V_ASSERT(act_kind == X_ERR && n_err >= 1, "[C12] after a title only '{' is well-formed");
 #elif PSTATE == 12
+#if defined(CHK_C02) && LEVEL >= 100000
+	V_ASSERT(n_lex_nested == 0, "[C02] nesting is bounded: at depth 100000 the skipper does not recurse into yet another unknown section (stack)");
+#endif
 	if (T == '}') {
 		V_ASSERT(n_lex_nested == 0, "[C12] an empty undeclared section consumes nothing beyond its closing brace");
 		if (nested)
